@@ -5,6 +5,8 @@ Re-runs, for every change under seeded/ (benign/), the quick check(s) recorded f
 The patch is applied to /repo HEAD when it still applies (plain or 3-way). A patch that conflicts with later repairs of /repo is
 evaluated on the commit it was written for (meta.json repo_head) DIFFERENTIALLY: the check runs on that commit with and without the
 patch, and only violation classes that the patch adds count (the old commit also shows the defects that were repaired since).
+A change that applies to HEAD and is no longer reported is run through its own demo.py: if that passes, a later repair of /repo
+neutralised the change (reported as NEUTRALISED), otherwise it is MISSED.
 Output, one line per change:  <id> <check> base=<HEAD|commit> violations=<n> [new_classes=<k>]"""
 import json, os, re, subprocess, sys, tempfile, shutil
 from concurrent.futures import ThreadPoolExecutor
@@ -73,7 +75,19 @@ def one(sd):
         for p in props:
             viol, cls, err = run_check(wt, p)
             if base == "HEAD":
-                lines.append("%s %s seed=%s base=HEAD violations=%d%s" % (sd, p, seed, viol, " CHECK-ERROR" if err else ""))
+                note = ""
+                if kind == "seeded" and viol == 0:
+                    # does the change still break anything on this HEAD? its own demonstration decides
+                    demo = os.path.join(d, "demo.py")
+                    os.makedirs(os.path.join(wt, "OUT"), exist_ok=True)
+                    src = re.sub(r"/tmp/s[a-z]_C\d+", wt, open(demo).read())
+                    open(os.path.join(wt, "OUT", "demo.py"), "w").write(src)
+                    for extra in os.listdir(d):
+                        if extra.endswith(".py") and extra != "demo.py":
+                            shutil.copy(os.path.join(d, extra), os.path.join(wt, "OUT", extra))
+                    r = sh("cd %s && PYTHONPATH=%s /venv/bin/python OUT/demo.py" % (wt, wt), timeout=900)
+                    note = " NEUTRALISED (its demo passes on this HEAD: a later repair made the change harmless)" if r.returncode == 0 else " MISSED"
+                lines.append("%s %s seed=%s base=HEAD violations=%d%s%s" % (sd, p, seed, viol, " CHECK-ERROR" if err else "", note))
             else:
                 cv, ccls, cerr = clean_classes(base, p)
                 new = cls - ccls
